@@ -36,8 +36,7 @@ Definition package_vars : list string := [
   "saltpack.armor62SignatureFrameChecker : saltpack.FrameChecker";
   "saltpack.armor62SignatureHeaderChecker : saltpack.HeaderChecker";
   "saltpack.armor62SigncryptionFrameChecker : saltpack.FrameChecker";
-  "saltpack.armor62SigncryptionHeaderChecker : saltpack.HeaderChecker";
-  "saltpack.symmetricKeyContextDigest : hash.Hash"
+  "saltpack.armor62SigncryptionHeaderChecker : saltpack.HeaderChecker"
 ].
 Definition shared_writes : list string := [
 ].
